@@ -30,7 +30,12 @@ class SameID:
       raise
     cur_items = self.get("items")
     self._substitute_virtual_line(previous)
-    self._set_existing_field("items", self.get("items") + cur_items, 
+    # (the replaced line keeps its own item objects: it is not connected any
+    # more, and what happens to it later does not concern the group)
+    prev_items = [gfapy.OrientedLine(item.line, item.orient) \
+                  if isinstance(item, gfapy.OrientedLine) else item \
+                  for item in self.get("items")]
+    self._set_existing_field("items", prev_items + cur_items,
                             set_reference = True)
     for tag, datatype, value in imported_tags:
       self.set_datatype(tag, datatype)
